@@ -869,8 +869,8 @@ public:
 		const bool writing = stream.GetMode() == NiStreamReversible::Mode::Writing;
 		const std::streamsize writeOffset = writing ? stream.asWrite()->GetBlockSize() : -1;
 		if (!writing)
-			verif::SetHint(verif::Hint::BlockRef, sizeof(base::index));
-		stream.Sync(reinterpret_cast<char*>(&base::index), sizeof(base::index));
+			verif::SetHint(verif::Hint::BlockRef, sizeof(this->index));
+		stream.Sync(reinterpret_cast<char*>(&this->index), sizeof(this->index));
 		if (verif::hooks && verif::hooks->onBlockRef)
 			verif::hooks->onBlockRef(verif::hooks->ctx, this, writing, writeOffset);
 	}
